@@ -13,7 +13,7 @@ class Check(RuntimeCheck):
     design_ref = 'DESIGN.md §4.4, §5 C11'
     theorems = ['C11_teardown_while_unwinding', 'C11_drop_while_unwinding', 'C11_scope_unwinds', 'C11_unwind_event',
                 'C11_consume_panics_cleanly', 'C11_matcher_panic_leaves_state', 'C11_user_panic_log_untouched',
-                'C11_lock_bodies_closed']
+                'C11_lock_bodies_closed', 'C11_source_teardown_silent_when_unwinding', 'C11_source_drop_after_teardown', 'C11_source_marks_torn_down']
 
     def rule(self):
         return ("grid: crash point {plain user panic after a returning call, matcher, answer function, real function, default "
